@@ -349,8 +349,15 @@ class Run:
         prop = self.prop
         wall = time.time() - t0
         proof_rows = self.oblig_rows
-        n = len(proof_rows)
-        disc = sum(1 for r in proof_rows if r["status"] == "discharged")
+        # obligations covered by a committed known finding are reported separately (coverage.known_finding_obligations) and are
+        # not part of obligations/discharged: the proof-level claim is "everything except the listed findings"
+        known_oids = {k["obligation"] for k in self.known_hits} | {p for k in self.known_hits for p in k.get("pairs", [])}
+        for r in proof_rows:
+            if r["id"] in known_oids:
+                r["status"] = "known-finding"
+        counted = [r for r in proof_rows if r["status"] != "known-finding"]
+        n = len(counted)
+        disc = sum(1 for r in counted if r["status"] == "discharged")
         meta = load_meta().get(prop, {})
         samples = []
         for r in proof_rows[:3] + self.bounded_rows[:2]:
@@ -380,6 +387,7 @@ class Run:
                 "undecided_clauses_of_the_statement": meta.get("not_decided", []),
                 "decided_scope": meta.get("decided", ""),
                 "known_findings": [k["finding"] for k in self.known_hits],
+                "known_finding_obligations": sorted(known_oids),
                 "undecided_this_run": self.undecided,
                 "exhaustive": False,
                 "repo_head": subprocess.run(["git", "-C", REPO, "rev-parse", "--short", "HEAD"], capture_output=True, text=True).stdout.strip(),
